@@ -193,3 +193,15 @@ add('C11',
                  'offline() of an agent that deferred a grace period stops at the documented FRG_ASSERT(!_qs_deferred) TODO before changing state: counted, not flagged',
                  'the controlled scheduler explores sequentially consistent interleavings; the happens-before clause is observed by ThreadSanitizer on plain reader data'],
     )
+
+# ---------------------------------------------------------------------------------------------- C10
+add('C10',
+    level='exploration',
+    rule='rcu_radixtree with a single writer and concurrent finders: E3 bounded-preemption DFS (bound 3/4) over 10 scenarios covering the three insertion cases (empty slot, prefix split at the root / middle / deep, direct leaf slot) and erase, PCT/random schedules over random scripts; E2 tree lifetimes with 3-6 free-running finder threads under ThreadSanitizer (plain node and value fields)',
+    jobs=[job('radix_sched', 'c10_radix.cpp', shards={'quick': 10, 'thorough': 16}),
+          job('radix_tsan', 'c10_tsan.cpp', flavour='tsan', shards={'quick': 4, 'thorough': 8})],
+    min_evaluations={'quick': 5000, 'thorough': 100000},
+    min_counters={'schedules': 5000, 'finds_checked': 10000, 'finds_overlapping_a_write': 1000, 'dfs_spaces_exhausted': 5, 'tsan_finds': 100000, 'tsan_tree_lifetimes': 100},
+    assumptions=['the controlled scheduler explores sequentially consistent interleavings at the hook points; missing release/acquire edges are observed by ThreadSanitizer on plain node/value fields',
+                 'a key is not re-inserted after an erase while readers may still hold its value (the client must wait for a grace period: not a promise of the tree)'],
+    )
